@@ -6,7 +6,7 @@ from . import vnet, vsched
 from .guards import DecoderGuard, NonTerminatingDecode
 
 LOCAL = ("client.network", "network")
-PEER = ("server.network", "network")
+PEER = ("server.peer.example", "peer.example")      # a realm of its own: the node's and the peer's identity must never be interchangeable
 PEER_ADDR = ("127.0.0.2", 3868)
 LOCAL_ADDR = ("127.0.0.1", 3868)
 
